@@ -42,7 +42,11 @@ META = dict(
                "removal, change of instruction type or any difference found by matches_source => rejected, state "
                "unchanged) while the method manager looks at the running program; the oracle generates edits of every "
                "field (text, threshold, indentation, order, insert/delete, header) of started macros and judges "
-               "'started' from the Mark trace. After an accepted live edit the method manager keeps a "
+               "'started' from the Mark trace. Reading taken: the property makes no exception for failed lines, so while the run "
+               "is paused in error an edit that corrects, re-thresholds or deletes the FAILED line of a started macro must be "
+               "refused too (C13's 'a corrected method is accepted while paused in error' concerns lines outside started "
+               "macros); the edit generator includes macros with a failing line (bad Wait / Run counter / Base, unknown "
+               "instruction or command) edited after the failure. After an accepted live edit the method manager keeps a "
                "state-less program, so a later edit of a started macro is accepted (recorded finding, root cause in the "
                "C01 cluster). Trusted: Lean kernel, harness, parser (programs are what the real parser builds).",
     technique="Lean 4 proof (DFS soundness/completeness/termination, step theorems) + differential correspondence "
